@@ -556,6 +556,67 @@ func gen(seed uint64, tier string) {
 		cls, ps, tol := smoothCase(r, m)
 		emit(cls, tol, geom.LineString(toPath(ps)))
 	}
+	// finite coordinates whose DIFFERENCES overflow float64 (more than MaxFloat64 apart): the largest
+	// coordinate difference is +Inf inside distPointToSegment; Simplify must still return
+	{
+		big, mx := 1.5e308, math.MaxFloat64
+		for _, tol := range []float64{0, 1, 1e300} {
+			emit("overflow", tol, geom.LineString(P(-big, 0, 0, 1, big, 0)))
+			emit("overflow", tol, geom.LineString(P(-big, 0, -big, 5, 0, 1e307, big, 3, big, 0)))
+			emit("overflow", tol, geom.LineString(P(0, -mx, 1, 0, 2, mx, 3, 0, 4, -mx)))
+			emit("overflow", tol, geom.LineString(P(-mx, -mx, 0, 0, mx, mx, mx, -mx, 7, 7)))
+			emit("overflow", tol, geom.Polygon{P(-big, -big, big, -big, big, big, 0, 1e308, -big, big, -big, -big), P(0, 0, 1, 0, 1, 1, 0, 0)})
+			emit("overflow", tol, geom.MultiLineString{P(-big, 0, 0, 1, big, 0), P(0, 0, 1, 1, 2, 0, 3, 1)})
+		}
+		// differences still finite: the rescale branch of distPointToSegment is taken once
+		emit("overflow", 1e300, geom.LineString(P(-8e307, 0, 0, 1e306, 8e307, 0, 8e307, 4e307)))
+		emit("overflow", 1e-310, geom.LineString(P(0, 0, 3e-309, 1e-309, 6e-309, 0, 9e-309, 2e-309)))
+	}
+	// double back-off (seeded C13-d2): an already emitted output segment blocks the longest chord
+	// A–Q, and the next candidate A–P is crossed only by the input segment Q–R that the first
+	// back-off has just un-dropped. The instance, then transformed and jittered copies.
+	{
+		base := []ip{{110, -600}, {120, -16}, {0, 0}, {100, 20}, {200, 0}, {210, -60}, {100, 10}}
+		mats := [][4]int64{{1, 0, 0, 1}, {0, -1, 1, 0}, {-1, 0, 0, -1}, {0, 1, -1, 0}, {3, -4, 4, 3}, {4, 3, -3, 4}, {5, -12, 12, 5}, {1, 0, 0, -1}, {0, 1, 1, 0}, {-3, 4, 4, 3}}
+		norms := []float64{1, 1, 1, 1, 5, 5, 13, 1, 1, 5}
+		apply := func(ps []ip, k int, tx, ty int64) []ip {
+			m := mats[k]
+			r := make([]ip, len(ps))
+			for i, q := range ps {
+				r[i] = ip{m[0]*q.x + m[1]*q.y + tx, m[2]*q.x + m[3]*q.y + ty}
+			}
+			return r
+		}
+		for k := range mats {
+			for _, t := range []float64{56, 58, 60} {
+				emit("dbo", t*norms[k], geom.LineString(toPath(apply(base, k, int64(7*k), int64(-3*k)))))
+			}
+		}
+		nj := 60
+		if tier == "thorough" {
+			nj = 1500
+		}
+		for c := 0; c < nj; c++ {
+			ps := make([]ip, len(base))
+			for i, q := range base {
+				ps[i] = ip{q.x + int64(r.Range(-3, 3)), q.y + int64(r.Range(-3, 3))}
+			}
+			// vary the shape a little more: height of the bump B, depth of Q, overshoot of R
+			ps[3].y += int64(r.Range(-6, 10))
+			ps[5].y += int64(r.Range(-10, 10))
+			ps[6].x += int64(r.Range(-15, 15))
+			ps[0].x += int64(r.Range(-10, 10))
+			if r.Chance(0.3) { // a longer lead-in
+				ps = append([]ip{{ps[0].x + int64(r.Range(20, 80)), ps[0].y - int64(r.Range(0, 40))}}, ps...)
+			}
+			if r.Chance(0.3) { // and something after R
+				ps = append(ps, ip{ps[len(ps)-1].x + int64(r.Range(-30, 30)), ps[len(ps)-1].y + int64(r.Range(40, 120))})
+			}
+			k := r.Intn(len(mats))
+			t := float64(r.Range(112, 122)) / 2
+			emit("dbo", t*norms[k], geom.LineString(toPath(apply(ps, k, int64(r.Range(-50, 50)), int64(r.Range(-50, 50))))))
+		}
+	}
 	// vertex and member counts around 64 / 128 (/ 1024 / 2048 in the thorough tier), one level at a time
 	{
 		sizes := []int{63, 64, 65, 66, 127, 128, 129, 130}
@@ -896,6 +957,7 @@ func simplifyOne(g0 geom.Geom, tol float64) string {
 
 func worker() {
 	debug.SetGCPercent(50)
+	debug.SetMaxStack(64 << 20) // a runaway recursion aborts the worker quickly; the supervisor reports the line as crashed
 	in := bufio.NewReaderSize(os.Stdin, 1<<20)
 	out := bufio.NewWriterSize(os.Stdout, 1<<16)
 	for {
